@@ -41,6 +41,9 @@ type e4Config struct {
 	PingDelayMs int `json:"pingDelayMs,omitempty"`
 	// OnErrorCalls: the OnError callback reads the client's statistics and current BaseClient (an application logging them)
 	OnErrorCalls bool `json:"onErrorCalls,omitempty"`
+	// AppPingShortN > 0: right after Connect returned the application pings that many times itself, each with a 1 ms
+	// deadline (with a slow broker these give up before the PINGRESP arrives: the answers come late)
+	AppPingShortN int `json:"appPingShortN,omitempty"`
 	// MaxPayload > 0: every BaseClient the dialler hands out has MaxPayloadLen set to it (C05 only: a message over the
 	// limit accepted before the first connection exists is dropped later, which the no-loss oracles would report)
 	MaxPayload int `json:"maxPayload,omitempty"`
@@ -696,6 +699,12 @@ func e4RunBody(c e4Case, started chan<- *e4Env) (res *e4Result) {
 			e.mu.Lock()
 			res.ConnectErr, res.ConnectReturn = err, true
 			e.mu.Unlock()
+			for i := 0; i < c.Cfg.AppPingShortN && err == nil; i++ {
+				pctx, pc := context.WithTimeout(ctx, time.Millisecond)
+				perr := cli.Ping(pctx)
+				pc()
+				log.add(0, "APP-PING-SHORT", nil, fmt.Sprintf("returned %v", perr))
+			}
 		}()
 	}
 	waitConnected := func() bool {
